@@ -248,6 +248,14 @@ func genTraceParent(r *vgen.Rand) string {
 	case 6:
 		sid = sid[:5] + "\xc5\xa1" + sid[7:]
 	}
+	if r.Intn(12) == 0 { // otherwise clean header of a non-zero version (incl. the forbidden ff)
+		v := vgen.Pick(r, []string{"ff", "ff", "fe", "01", "7f", "80", "f0"})
+		tp := v + "-" + randHex(r, 32) + "-" + randHex(r, 16) + "-" + vgen.Pick(r, []string{"00", "01", "03", "ff"})
+		if r.Bool() {
+			tp += "-" + randHex(r, r.Intn(6))
+		}
+		return tp
+	}
 	tp := ver + "-" + tid + "-" + sid + "-" + fl
 	switch r.Intn(14) {
 	case 0:
@@ -328,6 +336,15 @@ func main() {
 		{"01-4bf92f3577b34da6a3ce929d0e0e4736-00f067aa0ba902b7-ff-what-ever", "a=1,b=2"},
 		{"00-4bf92f3577b34da6a3ce929d0e0e4736-00f067aa0ba902b7-02", ""},
 		{"00-4BF92f3577b34da6a3ce929d0e0e4736-00f067aa0ba902b7-01", ""},
+		// otherwise well-formed headers of every version class: ff is forbidden, 01..fe are future versions
+		{"ff-4bf92f3577b34da6a3ce929d0e0e4736-00f067aa0ba902b7-01", "a=1"},
+		{"ff-4bf92f3577b34da6a3ce929d0e0e4736-00f067aa0ba902b7-01-future", ""},
+		{"ff-4bf92f3577b34da6a3ce929d0e0e4736-00f067aa0ba902b7-00", ""},
+		{"fe-4bf92f3577b34da6a3ce929d0e0e4736-00f067aa0ba902b7-01", "a=1"},
+		{"fe-4bf92f3577b34da6a3ce929d0e0e4736-00f067aa0ba902b7-09-future", ""},
+		{"01-4bf92f3577b34da6a3ce929d0e0e4736-00f067aa0ba902b7-01", ""},
+		{"00-4bf92f3577b34da6a3ce929d0e0e4736-0000000000000000-01", "a=1"},
+		{"00-00000000000000000000000000000000-00f067aa0ba902b7-01", "a=1"},
 	}
 	addExtract := func(tp, ts, kind string) {
 		desc := map[string]any{"op": "extract", "traceparent": tp, "tracestate": ts}
